@@ -282,6 +282,7 @@ namespace RecInt
     // a = b - c    (r stores the borrow)
     template <size_t K, typename T>
     inline __RECINT_IS_ARITH(T, void) sub(bool& r, ruint<K>& a, const ruint<K>& b, const T& c) {
+        if (__recint_isneg(c)) { add(r, a, b, __recint_mag(c)); return; } // b - c = b + |c|
         bool rl;
         sub(rl, a.Low, b.Low, c);
         sub(r, a.High, b.High, rl);
@@ -289,11 +290,13 @@ namespace RecInt
     // TODO Use __RECINT_USE_FAST_128 optim
     template <typename T>
     inline __RECINT_IS_ARITH(T, void) sub(bool& r, ruint<__RECINT_LIMB_SIZE+1>& a, const ruint<__RECINT_LIMB_SIZE+1>& b, const T& c) {
+        if (__recint_isneg(c)) { add(r, a, b, __recint_mag(c)); return; } // b - c = b + |c|
         r = (b < c);
         recint_sub_ddmmss(a.High.Value, a.Low.Value, b.High.Value, b.Low.Value, 0, limb(c));
     }
     template <typename T>
     inline __RECINT_IS_ARITH(T, void) sub(bool& r, ruint<__RECINT_LIMB_SIZE>& a, const ruint<__RECINT_LIMB_SIZE>& b, const T& c) {
+        if (__recint_isneg(c)) { add(r, a, b, __recint_mag(c)); return; } // b - c = b + |c|
         r = (b.Value < limb(c));
         a.Value = b.Value - c;
     }
@@ -301,17 +304,20 @@ namespace RecInt
     // a -= b    (r stores the borrow)
     template <size_t K, typename T>
     inline __RECINT_IS_ARITH(T, void) sub(bool& r, ruint<K>& a, const T& b) {
+        if (__recint_isneg(b)) { add(r, a, __recint_mag(b)); return; } // a - b = a + |b|
         bool rl;
         sub(rl, a.Low, b);
         sub(r, a.High, rl);
     }
     template <typename T>
     inline __RECINT_IS_ARITH(T, void) sub(bool& r, ruint<__RECINT_LIMB_SIZE+1>& a, const T& b) {
+        if (__recint_isneg(b)) { add(r, a, __recint_mag(b)); return; } // a - b = a + |b|
         r = (a < b);
         recint_sub_ddmmss(a.High.Value, a.Low.Value, a.High.Value, a.Low.Value, 0, limb(b));
     }
     template <typename T>
     inline __RECINT_IS_ARITH(T, void) sub(bool& r, ruint<__RECINT_LIMB_SIZE>& a, const T& b) {
+        if (__recint_isneg(b)) { add(r, a, __recint_mag(b)); return; } // a - b = a + |b|
         r = (a.Value < limb(b));
         a.Value = a.Value - b;
     }
@@ -319,32 +325,38 @@ namespace RecInt
     // a = b - c    (the borrow is lost)
     template <size_t K, typename T>
     inline __RECINT_IS_ARITH(T, void) sub(ruint<K>& a, const ruint<K>& b, const T& c) {
+        if (__recint_isneg(c)) { add(a, b, __recint_mag(c)); return; } // b - c = b + |c|
         bool rl;
         sub(rl, a.Low, b.Low, c);
         sub(a.High, b.High, rl);
     }
     template <typename T>
     inline __RECINT_IS_ARITH(T, void) sub(ruint<__RECINT_LIMB_SIZE+1>& a, const ruint<__RECINT_LIMB_SIZE+1>& b, const T& c) {
+        if (__recint_isneg(c)) { add(a, b, __recint_mag(c)); return; } // b - c = b + |c|
         recint_sub_ddmmss(a.High.Value, a.Low.Value, b.High.Value, b.Low.Value, 0, limb(c));
     }
     template <typename T>
     inline __RECINT_IS_ARITH(T, void) sub(ruint<__RECINT_LIMB_SIZE>& a, const ruint<__RECINT_LIMB_SIZE>& b, const T& c) {
+        if (__recint_isneg(c)) { add(a, b, __recint_mag(c)); return; } // b - c = b + |c|
         a.Value = b.Value - limb(c);
     }
 
     // a -= b    (the borrow is lost)
     template <size_t K, typename T>
     inline __RECINT_IS_ARITH(T, void) sub(ruint<K>& a, const T& b) {
+        if (__recint_isneg(b)) { add(a, __recint_mag(b)); return; } // a - b = a + |b|
         bool rl;
         sub(rl, a.Low, b);
         sub(a.High, rl);
     }
     template <typename T>
     inline __RECINT_IS_ARITH(T, void) sub(ruint<__RECINT_LIMB_SIZE+1>& a, const T& b) {
+        if (__recint_isneg(b)) { add(a, __recint_mag(b)); return; } // a - b = a + |b|
         recint_sub_ddmmss(a.High.Value, a.Low.Value, a.High.Value, a.Low.Value, 0, limb(b));
     }
     template <typename T>
     inline __RECINT_IS_ARITH(T, void) sub(ruint<__RECINT_LIMB_SIZE>& a, const T& b) {
+        if (__recint_isneg(b)) { add(a, __recint_mag(b)); return; } // a - b = a + |b|
         a.Value = a.Value - b;
     }
 
